@@ -7,6 +7,7 @@
 From stdpp Require Import gmap.
 From Coq Require Import NArith ZArith List Lia.
 From SkV Require Import Bytes Codec Ledger ChainState Pow Validate ChainDefs AssemblyProofs.
+From SkV Require PoolLink.
 From SkV Require NodeModel NodeProofs.
 Import NodeModel NodeProofs.
 
@@ -61,6 +62,19 @@ Proof. exact mined_invalid_noop. Qed.
 Theorem C12_time : forall now parent_ts : N, (parent_ts < N.max now (parent_ts + 1))%N.
 Proof. intros. lia. Qed.
 
+(* the pool premises of C12_assembly_valid are exactly what C13's invariant provides *)
+Theorem C12_pool_premises_from_C13 : forall sha verify P tx_of utxo_at (s : NodeModel.nstate),
+  NodeProofs.PoolInv (PoolLink.valid_at_real verify tx_of utxo_at) (PoolLink.conflict_real tx_of) s ->
+  Forall (fun t => v_noncb_by_itself P (tx_of t) = Ok tt) (NodeModel.ns_pool s) ->
+  (forall a b, List.In a (NodeModel.ns_pool s) -> List.In b (NodeModel.ns_pool s) ->
+     tx_id sha (tx_of a) = tx_id sha (tx_of b) -> a = b) ->
+  let others := map tx_of (NodeModel.ns_pool s) in
+  Forall (fun t => v_noncb_by_itself P t = Ok tt) others /\
+  Forall (fun t => v_noncb_in_state verify (utxo_at (NodeModel.ns_head s)) t = Ok tt) others /\
+  nodup_keys [] (concat (map tx_refs others)) = true /\ nodup_bytes [] (map (tx_id sha) others) = true.
+Proof. exact PoolLink.pool_premises. Qed.
+
+Print Assumptions C12_pool_premises_from_C13.
 Print Assumptions C12_assembly_valid.
 Print Assumptions C12_reward_exact.
 Print Assumptions C12_assembly_header.
